@@ -221,7 +221,15 @@ class Ranges:
                 return Rng(r.lo, r.hi, True, r.values)
             return r
         if name == 'where' and len(args) == 3:
-            return join(g(1), g(2))
+            ra, rb = g(1), g(2)
+            cond = args[0].single_atom() if isinstance(args[0], Poly) else None
+            if cond is not None and cond[0] == 'app' and cond[1] in ('lt', 'le', 'eq', 'ne') and len(cond[2]) == 2:
+                # the branch that repeats the tested array only takes the values the test lets through
+                if isinstance(args[1], Poly):
+                    ra = self._restrict(ra, args[1], cond, True)
+                if isinstance(args[2], Poly):
+                    rb = self._restrict(rb, args[2], cond, False)
+            return join(ra, rb)
         if name == 'setitem':
             base, key, val = args[0], args[1], args[2]
             rb = self.of(base) if isinstance(base, Poly) else TOP
@@ -263,6 +271,37 @@ class Ranges:
                 return Rng(f(r.lo for r in parts), f(r.hi for r in parts), all(r.integer for r in parts), vals)
         self.unknown.append(f'{name}(...)')
         return TOP
+
+    def _restrict(self, r, value, cond, truth):
+        """Range of ``value`` where the comparison ``cond`` (an lt/le/eq/ne atom against a constant) has the
+        given truth; r unchanged when cond is not about value."""
+        op, (x, y) = cond[1], cond[2]
+        if not (isinstance(x, Poly) and isinstance(y, Poly)):
+            return r
+        if x == value and y.const_value() is not None:
+            c, rel = y.const_value(), op                    # value <op> c
+        elif y == value and x.const_value() is not None:
+            c, rel = x.const_value(), {'lt': 'gt', 'le': 'ge', 'eq': 'eq', 'ne': 'ne'}[op]
+        else:
+            return r
+        if not truth:
+            rel = {'lt': 'ge', 'le': 'gt', 'gt': 'le', 'ge': 'lt', 'eq': 'ne', 'ne': 'eq'}[rel]
+        c = float(c) if not isinstance(c, int) else c
+        lo, hi, vals = r.lo, r.hi, r.values
+        if rel in ('lt', 'le'):
+            hi = min(hi, c)
+            vals = _filt(vals, (lambda v: v < c) if rel == 'lt' else (lambda v: v <= c))
+        elif rel in ('gt', 'ge'):
+            lo = max(lo, c)
+            vals = _filt(vals, (lambda v: v > c) if rel == 'gt' else (lambda v: v >= c))
+        elif rel == 'eq':
+            return const(c) if float(c) == int(c) else Rng(c, c)
+        elif rel == 'ne':
+            vals = _filt(vals, lambda v: v != c)
+        out = Rng(lo, hi, r.integer, vals)
+        if out.lo == out.hi and out.values is None and not math.isinf(out.lo) and float(out.lo) == int(out.lo):
+            out = const(int(out.lo))
+        return out
 
     def loop_atom(self, a):
         if a in self._loop_memo:
